@@ -42,6 +42,13 @@ type brow struct {
 	Attr   int    `json:"attr"`
 }
 
+// txReference: rows with id = 3 mod 4 have no reference (an omitempty member present on some items only)
+func txReference(r brow) string {
+	if r.ID%4 == 3 {
+		return ""
+	}
+	return fmt.Sprintf("r%d", r.Attr)
+}
 func accountAddr(id int64) string { return fmt.Sprintf("acc:%04d", id) }
 func dateOf(attr int) string      { return fmt.Sprintf("2019-01-01T00:00:%02dZ", attr%60) }
 
@@ -62,22 +69,28 @@ func newBucket(listing string, rows []brow) *bucket {
 		t := &tabledrv.Table{Cols: []string{"ledger", "id", "type", "hash", "date", "data", "idempotency_key"}}
 		for _, r := range rows {
 			t.Rows = append(t.Rows, []driver.Value{r.Ledger, strconv.FormatInt(r.ID, 10), "SET_METADATA", []byte{1}, dateOf(r.Attr),
-				[]byte(`{"targetType":"ACCOUNT","targetId":"a","metadata":{}}`), fmt.Sprintf("%s/%d", r.Ledger, r.ID)})
+				[]byte(fmt.Sprintf(`{"targetType":"ACCOUNT","targetId":"a%d","metadata":{"k%d":"v%d"}}`, r.ID, r.ID%3, r.ID)), fmt.Sprintf("%s/%d", r.Ledger, r.ID)})
 		}
 		d.Tables["logs"] = t
 	case "transactions":
 		b.table, b.keyCol = "transactions", "id"
 		t := &tabledrv.Table{Cols: []string{"ledger", "id", "timestamp", "reference", "postings", "metadata"}}
 		for _, r := range rows {
-			t.Rows = append(t.Rows, []driver.Value{r.Ledger, strconv.FormatInt(r.ID, 10), dateOf(r.Attr), fmt.Sprintf("r%d", r.Attr),
-				[]byte(`[]`), []byte(fmt.Sprintf(`{"ledger":%q}`, r.Ledger))})
+			// contents differ from row to row: amounts, metadata key sets, a reference on some rows only
+			var ref driver.Value
+			if s := txReference(r); s != "" {
+				ref = s
+			}
+			t.Rows = append(t.Rows, []driver.Value{r.Ledger, strconv.FormatInt(r.ID, 10), dateOf(r.Attr), ref,
+				[]byte(fmt.Sprintf(`[{"source":"world","destination":"acc:%d","amount":%d,"asset":"USD"}]`, r.ID, 100+r.ID)),
+				[]byte(fmt.Sprintf(`{"ledger":%q,"k%d":"v%d"}`, r.Ledger, r.ID%3, r.ID))})
 		}
 		d.Tables["transactions"] = t
 	case "accounts":
 		b.table, b.keyCol = "accounts", "address"
 		t := &tabledrv.Table{Cols: []string{"ledger", "address", "metadata", "insertion_date"}}
 		for _, r := range rows {
-			t.Rows = append(t.Rows, []driver.Value{r.Ledger, accountAddr(r.ID), []byte(fmt.Sprintf(`{"ledger":%q,"attr":"%d"}`, r.Ledger, r.Attr)), dateOf(0)})
+			t.Rows = append(t.Rows, []driver.Value{r.Ledger, accountAddr(r.ID), []byte(fmt.Sprintf(`{"ledger":%q,"attr":"%d","k%d":"v%d"}`, r.Ledger, r.Attr, r.ID%3, r.ID)), dateOf(0)})
 		}
 		d.Tables["accounts"] = t
 	}
